@@ -379,6 +379,19 @@ func r09_5(r *Report, p *Program) {
 			nClaim++
 		}
 		ex := val(pa, -1, exists)
+		if ex == 0 {
+			// the same test on a claim map that was looked up into a local first: any comma-ok map lookup of the name
+			for _, lt := range pa.Lits {
+				if lk, isL := lt.Cond.(*ssa.Extract); isL && lk.Index == 1 {
+					if look, isLookup := lk.Tuple.(*ssa.Lookup); isLookup && look.CommaOk && strings.Contains(look.X.Type().String(), "parentRevision") {
+						ex = -1
+						if lt.Pos {
+							ex = 1
+						}
+					}
+				}
+			}
+		}
 		dn := val(pa, -1, desiredNil)
 		switch {
 		case ex == 1 && (hasClaim || hasKeep):
